@@ -1715,6 +1715,25 @@ func runScenario(scn *scenario, seed int64) observation {
 		seed = scn.Seed
 	}
 	scn.Seed = seed
+	obs := runOnce(scn, seed)
+	if len(scn.Cl.Chunks) > 0 || len(scn.Hd.Reads) > 0 || len(scn.Hd.Writes) > 0 || scn.Hd.Flush {
+		plain := *scn
+		plain.Cl.Chunks, plain.Hd.Reads, plain.Hd.Writes, plain.Hd.Flush = nil, nil, nil, false
+		ref := runOnce(&plain, seed)
+		obs.Ref = refObs{Has: true, Disp: ref.Disp, Cl: ref.Cl, Ret: ref.Ret}
+	}
+	fixObs(&obs.Ref.Cl)
+	return obs
+}
+
+// fixObs gives an unused client observation its empty lists (TLC's JSON reader wants no nulls).
+func fixObs(c *clientObs) {
+	if c.End.Trl == nil {
+		c.End.Trl, c.End.Lost, c.End.Leak = []string{}, []string{}, []string{}
+	}
+}
+
+func runOnce(scn *scenario, seed int64) observation {
 	rn := newRun(scn, seed)
 	obs := observation{SID: scn.SID, Ev: "rpc", Scn: scn, Disp: []dispatchObs{}}
 	var unknown http.Handler
